@@ -83,21 +83,24 @@ type Point struct {
 
 // Exec is one controlled execution.
 type Exec struct {
-	order       []*G
-	cur         *G
-	chans       map[uintptr]*chanInfo
-	prefix      []int
-	Choices     []int
-	Points      []Point
-	Steps       int
-	Status      string // done deadlock spin crash steplimit replay-divergence unsupported lost-control
-	Detail      string
-	Leaked      bool
-	Out         []string
-	Trace       []string
-	mainDone    chan struct{}
-	wg          sync.WaitGroup
-	cacheHit    bool
+	order    []*G
+	cur      *G
+	chans    map[uintptr]*chanInfo
+	prefix   []int
+	Choices  []int
+	Points   []Point
+	Steps    int
+	Status   string // done deadlock spin crash steplimit replay-divergence unsupported lost-control
+	Detail   string
+	Leaked   bool
+	Out      []string
+	Trace    []string
+	mainDone chan struct{}
+	wg       sync.WaitGroup
+	cacheHit bool
+	// Fresh: under iterative bounding the schedules of the lower bounds are run again at every higher
+	// bound; an execution is fresh when it uses exactly the current bound's number of preemptions
+	Fresh       bool
 	ex          *Explorer
 	CapMap      func(n int, site string) int
 	Clock       int64
@@ -888,6 +891,8 @@ type Explorer struct {
 	// for an unbounded exploration it is -1 unless the whole space was covered, then 1<<30)
 	BoundDone int
 	states    int
+	// FreshExecs counts executions that were not re-runs of a lower bound's schedule
+	FreshExecs int
 }
 
 func (e *Explorer) remaining(x *Exec) int {
@@ -942,6 +947,10 @@ func (e *Explorer) explore(prefix []int, used int, body func(), check func(x *Ex
 	}
 	e.curCost = used
 	x := Run(e, prefix, body, e.Opts)
+	x.Fresh = e.Bound <= 0 || used == e.Bound
+	if x.Fresh {
+		e.FreshExecs++
+	}
 	e.Execs++
 	e.Steps += x.Steps
 	if len(x.Points) > e.MaxDepth {
